@@ -37,6 +37,7 @@ from .constants import DIAMETER_AGENT_CLIENT_MODE
 from .constants import DIAMETER_AGENT_SERVER_MODE
 from .constants import DIAMETER_AGENT_TRANSPORT_TYPE_TCP
 from .constants import DIAMETER_AGENT_TRANSPORT_TYPE_SCTP
+from .constants import DIAMETER_HEADER_LENGTH
 from .exceptions import AVPAttributeValueError
 from .exceptions import AVPParsingError
 from .exceptions import DataTypeError
@@ -65,6 +66,25 @@ DECODING_ERRORS = (AVPParsingError, AVPAttributeValueError, DataTypeError,
 
 diameter_conn_logger = logging.getLogger("DiameterConnection")
 diameter_logger = logging.getLogger("Diameter")
+
+
+def get_complete_messages_length(stream: bytes) -> int:
+    index = 0
+
+    while len(stream) - index >= DIAMETER_HEADER_LENGTH:
+        length = int.from_bytes(stream[index+1:index+4], byteorder="big")
+
+        #: A malformed Message Length cannot be resynchronized. The whole 
+        #: stream is handed over and rejected by DiameterMessage.load().
+        if length < DIAMETER_HEADER_LENGTH:
+            return len(stream)
+
+        if len(stream) - index < length:
+            break
+
+        index += length
+
+    return index
 
 
 def make_logging(msg, disable_else=False):
@@ -182,9 +202,17 @@ class DiameterAssociation(object):
                 if self.transport is None:
                     break
 
-                data_stream = copy.copy(self.transport._recv_data_stream)
-                self.transport._recv_data_stream = b""
-                self.transport._recv_data_available.clear()
+                #: Only complete Diameter Messages are handed over to the 
+                #: Diameter Layer. An incomplete tail stays in the Transport 
+                #: Layer until the remaining bytes arrive.
+                with self.transport.lock:
+                    data_stream = self.transport._recv_data_stream
+                    boundary = get_complete_messages_length(data_stream)
+
+                    self.transport._recv_data_stream = data_stream[boundary:]
+                    self.transport._recv_data_available.clear()
+
+                data_stream = data_stream[:boundary]
 
                 diameter_conn_logger.debug("Grabbing data stream from "\
                                            "Transport Layer to Diameter Layer.")
